@@ -150,4 +150,8 @@ impl TargetActorHandleSet {
             .try_send(TargetInvalidatedMessage)
             .is_ok()
     }
+
+    pub fn verif_invalidation_pending(&self) -> bool {
+        !self._target_invalidated_sender.is_empty()
+    }
 }
